@@ -272,6 +272,14 @@ def run_one(seed, preset=None, tier="quick", want_case=False):
         last = max([k for k, o in enumerate(ops) if o[0] == "reg" and o[1] == b.i], default=-1)
         pos = last + 1 + ot.draw(len(ops) - last)
         ops.insert(pos, ("cook", b.i, None))
+    # cooks that fail or are abandoned while the others register and cook (fault: a broken / cancelled
+    # engine start-up next to healthy ones): they must not disturb anybody else
+    sab_t = tape.sub("sabotage")
+    saboteurs = []
+    for k in range(sab_t.weighted([(5, 0), (3, 1), (1, 2)])):
+        mode = sab_t.choose(["bake_raises", "cancelled_in_bake", "invalid_sdl"])
+        saboteurs.append((k, mode, bundles[sab_t.draw(len(bundles))]))
+        ops.insert(sab_t.draw(len(ops) + 1), ("sabotage", k, None))
     sch = pick_scheduler(cfgt)
     loop = SimLoop(tape.sub("sched"), sch[0], sch[1], "gate")
     engines = {}
@@ -305,9 +313,51 @@ def run_one(seed, preset=None, tier="quick", want_case=False):
         finally:
             cooking.discard(b.i)
 
+    sab_results = {}
+
+    async def sabotage(k, mode, like):
+        name = "C17_%d_bad%d" % (seed, k)
+        mod_name = "simv_c17_badmod_%d_%d" % (seed, k)
+        m = types.ModuleType(mod_name)
+
+        async def bake(schema_name, config):
+            loop.ev("bad_bake_enter", k)
+            await loop.gate(("bad_bake", k))
+            if mode == "bake_raises":
+                raise RuntimeError("module of the broken engine fails to bake")
+            await loop.gate(("bad_bake2", k))
+            return ""
+
+        m.bake = bake
+        sys.modules[mod_name] = m
+        sdl = like.sdl if mode != "invalid_sdl" else like.sdl + "\ntype Broken implements NoSuchInterface { x: NoSuchType }\n"
+        try:
+            await create_engine(sdl, schema_name=name, modules=[mod_name])
+            sab_results[k] = "cooked"
+        except asyncio.CancelledError:
+            sab_results[k] = "cancelled"
+            raise
+        except Exception as e:  # noqa: BLE001
+            sab_results[k] = "failed:" + type(e).__name__
+        finally:
+            sys.modules.pop(mod_name, None)
+            forget(name)
+
     async def main():
         tasks = []
+        sab_tasks = []
         for kind, bi, step in ops:
+            if kind == "sabotage":
+                k, mode, like = saboteurs[bi]
+                loop.ev("sabotage_start", k, mode)
+                st = loop.create_task(sabotage(k, mode, like))
+                sab_tasks.append(st)
+                if mode == "cancelled_in_bake":
+                    async def kill(st=st, k=k):
+                        await loop.gate(("bad_killer", k))
+                        st.cancel()
+                    sab_tasks.append(loop.create_task(kill()))
+                continue
             b = bundles[bi]
             if kind == "reg":
                 step[2]()
@@ -318,6 +368,7 @@ def run_one(seed, preset=None, tier="quick", want_case=False):
                 if ot.chance(50):
                     await asyncio.sleep(0)
         res = await asyncio.gather(*tasks, return_exceptions=True)
+        await asyncio.gather(*sab_tasks, return_exceptions=True)
         return res
 
     try:
@@ -375,9 +426,13 @@ def run_one(seed, preset=None, tier="quick", want_case=False):
     r["metrics"] = {"bundles": len(bundles), "registration_steps": len(regs), "registration_bundle_switches": switches,
                     "shared_coordinates_max": shared, "max_cooks_overlapping": overlap[0], "probes_compared": n_cmp}
     r["faults"] = {}
+    for k, (_, mode, _b) in enumerate(saboteurs):
+        key = "coresident_cook_%s_%s" % (mode, sab_results.get(k, "not_started").split(":")[0])
+        r["faults"][key] = r["faults"].get(key, 0) + 1
     r["probes"] = {"cooks_overlapped": int(overlap[0] >= 2), "registrations_through_module": int(any(in_module[b.i] for b in bundles)),
                    "four_bundles": int(len(bundles) == 4), "subscription_bundle": int(any(b.schema.subscription for b in bundles)),
                    "bundle_extends_builtin_scalar": int(any(b.extend_builtin for b in bundles)),
+                   "broken_or_cancelled_cook_alongside": int(bool(saboteurs)),
                    "same_sdl_text_under_two_names": int(any(b.twin_of is not None for b in bundles)),
                    "twin_sdl_with_directive_on_extension": int(any(b.twin_of is not None and ("extend type Query @mark" in b.sdl or b.extend_builtin) for b in bundles)),
                    "bundle_overrides_builtin_scalar": int(any(b.override_id for b in bundles)),
